@@ -193,6 +193,28 @@ def _top_stmt(fn, node):
     return None
 
 
+def _into_carrier(it):
+    """How `into::expand` carries (index, field, skip) of one field from the parsing pass to the expansion pass: the
+    triple `(i, f, skip)`, or a private struct whose three members are filled from exactly those three values.
+    Returns (closing-text of the Ok value, regex for the skip filter, regex for the single-field list) or None."""
+    if "Ok(((i,f,skip),convs))" in it:
+        return (
+            "Ok(((i,f,skip),convs))",
+            re.escape("fields.into_iter().filter_map(|(i,f,skip)|(!skip).then_some((i,f))).collect()"),
+            re.escape("fields:vec!((i,field))"),
+        )
+    m = re.search(r"let (\w+)=(\w+)\{(\w+):i,(\w+):f,(?:(\w+):)?skip,?\};Ok\(\(\1,convs\)\)", it) or re.search(r"Ok\(\((\w+)\{(\w+):i,(\w+):f,(?:(\w+):)?skip,?\},convs\)\)", it)
+    if not m:
+        return None
+    g = m.groups()
+    ni, nf, ns = (g[2], g[3], g[4] or "skip") if len(g) == 5 else (g[1], g[2], g[3] or "skip")
+    return (
+        m.group(0),
+        r"fields\.into_iter\(\)\.filter_map\(\|(\w+)\|\(!\1\.%s\)\.then_some\(\(\1\.%s,\1\.%s\)\)\)\.collect\(\)" % (ns, ni, nf),
+        r"fields:vec!\(\((\w+)\.%s,\1\.%s\)\)" % (ni, nf),
+    )
+
+
 def rule_field_order(ctx):
     """IDX-ALIGN(conv): the i-th tuple component initialises the i-th declared field and nothing else: `expand_fields` hands (ident, type, index) of the same `(i, field)` to the wrapper; each per-field template contains exactly one conversion (`<Ty as From<..>>::from(value.i)` for types/forward, none for the plain tuple); listed types pass `validate_type`; Into extracts non-skipped fields under their original index in declaration order for the three reference kinds; Constructor's parameters, types and initialisers come from one field list."""
     fn = A.get_fn(ctx.files, FROM, "Expansion::expand_fields")
@@ -230,13 +252,14 @@ def rule_field_order(ctx):
     ie = A.get_fn(ctx.files, INTO, "expand")
     it = A.fn_text(ie)
     ctx.instance("into:fields-list")
-    for part, why in (
-        ("data.fields.iter().enumerate().map(|(i,f)|", "fields are enumerated with their original index"),
-        ("Ok(((i,f,skip),convs))", "index, field and skip flag of one field stay together"),
-        ("fields.into_iter().filter_map(|(i,f,skip)|(!skip).then_some((i,f))).collect()", "skipped fields are filtered out keeping index and order"),
-        ("fields:vec!((i,field))", "a field-level attribute expands that very field"),
+    car = _into_carrier(it)
+    for part, why, rx in (
+        ("data.fields.iter().enumerate().map(|(i,f)|", "fields are enumerated with their original index", None),
+        ("Ok(((i,f,skip),convs))", "index, field and skip flag of one field stay together", re.escape(car[0]) if car else None),
+        ("fields.into_iter().filter_map(|(i,f,skip)|(!skip).then_some((i,f))).collect()", "skipped fields are filtered out keeping index and order", car[1] if car else None),
+        ("fields:vec!((i,field))", "a field-level attribute expands that very field", car[2] if car else None),
     ):
-        if part not in it:
+        if part not in it and not (rx and re.search(rx, it)):
             ctx.report(f"order:into:{part[:30]}", ctx.where(ie.file, ie.node), f"Into: {why} - no longer found (`{part}`)", {})
     ix = A.get_fn(ctx.files, INTO, "Expansion::expand")
     xt = A.fn_text(ix)
@@ -310,14 +333,16 @@ def rule_validate_arity(ctx):
     f = fn.file
     w = ctx.where(f, fn.node)
     cmpm = None
+    als_ = A.aliases(fn)
     for mt, ps in A.find(fn.block, "Expr::Match"):
-        r = A.render(mt["expr"])
+        # a cached `let n = self.len();` is read as what it stands for
+        r = A.inline_text(A.render(mt["expr"]), als_)
         if re.fullmatch(r"self\.len\(\)\.cmp\(&\w+\.len\(\)\)", r) or re.fullmatch(r"\w+\.len\(\)\.cmp\(&self\.len\(\)\)", r):
             cmpm = (mt, ps, r)
     ctx.instance("arity:compare")
     if cmpm is None:
         # accepted alternative: `if self.len() != elems.len() { return Err(..) }`
-        t = A.fn_text(fn)
+        t = A.fn_text(fn, inline=True)
         if A.wsearch(t, "if self.len()!=elems.len(){return Err(") is None and A.wsearch(t, "if elems.len()!=self.len(){return Err(") is None:
             ctx.report("arity:compare", w, "`validate_type` no longer compares the number of fields with the number of listed tuple elements before handing the elements out for a per-field zip", {})
         return
@@ -351,6 +376,7 @@ def rule_validate_arity(ctx):
     if arm is None or "Type::Tuple" not in A.render_pat(arm["pat"]) or A.render(arm["guard"][1] if isinstance(arm.get("guard"), list) else arm.get("guard") or {}) not in ("self.len()>1",):
         g = arm.get("guard") if arm else None
         gr = A.render(g[1]) if isinstance(g, list) and len(g) > 1 else (A.render(g) if isinstance(g, dict) else None)
+        gr = A.inline_text(gr, als_) if gr else gr
         if arm is None or "Type::Tuple" not in A.render_pat(arm["pat"]) or gr != "self.len()>1":
             ctx.report("arity:scope", w, f"the arity comparison no longer covers every tuple type listed for a multi-field item (arm guard `{gr}`)", {})
 
@@ -363,6 +389,10 @@ def rule_into_impl_set(ctx):
     w = ctx.where(f, fn.node)
     ctx.instance("into-set:convs-source")
     m = A.wsearch(t, "let convs=field_attr.and_then(|attr|attr.convs);Ok(((i,f,skip),convs))")
+    if m is None:
+        car = _into_carrier(t)
+        if car and A.wsearch(t, "let convs=field_attr.and_then(|attr|attr.convs);") is not None and t.index(car[0]) > t.index("let convs=field_attr.and_then("):
+            m = True
     u = re.search(r"let \((\w+),(\w+)\)(?::[^=]*)?=(\w+)\.into_iter\(\)\.unzip\(\)", t)
     if m is None or u is None:
         ctx.report("into-set:convs-source", w, "the per-field conversion lists are no longer `field_attr.and_then(|attr| attr.convs)` collected in field order and unzipped from the field triples", {})
@@ -389,7 +419,9 @@ def rule_into_impl_set(ctx):
             {},
         )
     ctx.instance("into-set:per-field")
-    if A.wsearch(t, f"{fields_v}.iter().zip({convs_v}).filter_map(|(&(i,field,_),convs)|{{convs.map(|convs|Expansion{{") is None and A.wsearch(t, f"{fields_v}.iter().zip({convs_v}).filter_map(|(&(i,field,_),convs)|convs.map(|convs|Expansion{{") is None:
+    if A.wsearch(t, f"{fields_v}.iter().zip({convs_v}).filter_map(|(&(i,field,_),convs)|{{convs.map(|convs|Expansion{{") is None and A.wsearch(t, f"{fields_v}.iter().zip({convs_v}).filter_map(|(&(i,field,_),convs)|convs.map(|convs|Expansion{{") is None and re.search(
+        rf"{fields_v}\.iter\(\)\.zip\({convs_v}\)\.filter_map\(\|\(\w+,convs\)\|\{{?convs\.map\(\|convs\|Expansion\{{", t
+    ) is None:
         ctx.report("into-set:per-field", w, "field-level conversion lists no longer yield exactly one expansion each (zip of fields and their lists, `convs.map(..)`)", {})
     # the whole-struct expansion is added exactly when a struct-level list exists (explicit or the fallback): no further condition
     pushes = [(mc, ps) for mc, ps in A.method_calls(fn.block, "push") if mc["args"] and "Expansion" in A.render(mc["args"][0])]
